@@ -5,13 +5,18 @@ CScales == {960, -960, 1920, 480, 1440}
 CShifts == {k * 960 + r : k \in IF Tier = "quick" THEN {-7, -2, 0, 3} ELSE -8..8, r \in {0, 60, -60, 240}}          \* no half-pixel residues: no ties
 CTilings == {[sy |-> <<2, 2, 2>>, sx |-> <<3, 3>>, dy |-> <<2, 3>>, dx |-> <<2, 2, 2>>], [sy |-> <<1, 2, 3>>, sx |-> <<4, 2>>, dy |-> <<3, 3>>, dx |-> <<4, 1, 1>>],
              [sy |-> <<1, 1, 1, 1, 1, 1>>, sx |-> <<6>>, dy |-> <<5>>, dx |-> <<1, 1, 1, 1, 1, 1>>]}
-Cfgs == << [dtype |-> "uint8", float |-> FALSE, src_nodata |-> <<>>, dst_nodata |-> <<>>, time |-> 0],
-           [dtype |-> "float32", float |-> TRUE, src_nodata |-> <<>>, dst_nodata |-> <<>>, time |-> 0],
-           [dtype |-> "int16", float |-> FALSE, src_nodata |-> <<-5>>, dst_nodata |-> <<>>, time |-> 2],
-           [dtype |-> "float64", float |-> TRUE, src_nodata |-> <<>>, dst_nodata |-> <<-99>>, time |-> 0],
-           [dtype |-> "uint8", float |-> FALSE, src_nodata |-> <<>>, dst_nodata |-> <<200>>, time |-> 2],
-           [dtype |-> "int8", float |-> FALSE, src_nodata |-> <<>>, dst_nodata |-> <<>>, time |-> 0],
-           [dtype |-> "float32", float |-> TRUE, src_nodata |-> <<-7>>, dst_nodata |-> <<-7>>, time |-> 0] >>
+\* tchunks: chunking of the leading time axis (non-dividing chunks included); both nodata values set and different in some
+Cfgs == << [dtype |-> "uint8", float |-> FALSE, src_nodata |-> <<>>, dst_nodata |-> <<>>, time |-> 0, tchunks |-> <<>>],
+           [dtype |-> "float32", float |-> TRUE, src_nodata |-> <<>>, dst_nodata |-> <<>>, time |-> 0, tchunks |-> <<>>],
+           [dtype |-> "int16", float |-> FALSE, src_nodata |-> <<-5>>, dst_nodata |-> <<>>, time |-> 2, tchunks |-> <<1, 1>>],
+           [dtype |-> "float64", float |-> TRUE, src_nodata |-> <<>>, dst_nodata |-> <<-99>>, time |-> 0, tchunks |-> <<>>],
+           [dtype |-> "uint8", float |-> FALSE, src_nodata |-> <<>>, dst_nodata |-> <<200>>, time |-> 2, tchunks |-> <<2>>],
+           [dtype |-> "int8", float |-> FALSE, src_nodata |-> <<>>, dst_nodata |-> <<>>, time |-> 0, tchunks |-> <<>>],
+           [dtype |-> "float32", float |-> TRUE, src_nodata |-> <<-7>>, dst_nodata |-> <<-7>>, time |-> 0, tchunks |-> <<>>],
+           [dtype |-> "int16", float |-> FALSE, src_nodata |-> <<-5>>, dst_nodata |-> <<77>>, time |-> 0, tchunks |-> <<>>],
+           [dtype |-> "uint8", float |-> FALSE, src_nodata |-> <<250>>, dst_nodata |-> <<200>>, time |-> 3, tchunks |-> <<2, 1>>],
+           [dtype |-> "float32", float |-> TRUE, src_nodata |-> <<-7>>, dst_nodata |-> <<-9>>, time |-> 0, tchunks |-> <<>>],
+           [dtype |-> "int16", float |-> FALSE, src_nodata |-> <<>>, dst_nodata |-> <<>>, time |-> 3, tchunks |-> <<1, 2>>] >>
 MkC(t, A, crs, k) == [hs |-> SumTo(t.sy, Len(t.sy)), ws |-> SumTo(t.sx, Len(t.sx)), hd |-> SumTo(t.dy, Len(t.dy)), wd |-> SumTo(t.dx, Len(t.dx)),
                       A |-> A, sy |-> t.sy, sx |-> t.sx, dy |-> t.dy, dx |-> t.dx, crs |-> crs, cfg |-> Cfgs[(k % Len(Cfgs)) + 1], pad |-> <<>>, align |-> <<>>]
 Cases(sx) == {MkC(t, <<sx, 0, tx, 0, sy, ty>>, crs, Abs(tx) \div 60 + Abs(ty) \div 60 + Len(t.sy)) : tx \in CShifts, sy \in {Abs(sx), -Abs(sx)}, ty \in {60, 2940, -1980, 7000}, t \in CTilings, crs \in {"same", "other"}}
